@@ -183,7 +183,7 @@ func runC07(c *Ctx) {
 	// E7
 	if d := c.V1.Disc("priority.Simple"); d != nil {
 		for _, e := range d.Gos {
-			if !e.Multi {
+			if !e.Multi && e.Parent == nil {
 				childJoinRules(c, c.V1.Routine(d, e), "E7")
 			}
 		}
@@ -731,6 +731,25 @@ func childJoinRules(c *Ctx, rt *Routine, rule string) {
 				}
 			}
 			r.Check(doneFirst, rule, ekey+"#done", p.InstrPos(g), "child defers wg.Done() first", "spawned goroutine does not defer wg.Done() before anything else")
+			// a child without a context parameter is a helper: it must be the joined-helper idiom
+			takesCtx := false
+			if child != nil {
+				for _, par := range child.Params {
+					if typeShort(par.Type()) == "context.Context" {
+						takesCtx = true
+					}
+				}
+			}
+			if !takesCtx {
+				okh, why := false, "UNDECIDED: spawned goroutine is not a resolved entry"
+				for _, ce := range rt.D.Gos {
+					if ce.Stmt == g {
+						okh, why = p.helperBounded(rt.D, ce)
+					}
+				}
+				r.Check(okh, rule, ekey+"#helper:"+shortFn(p, child), p.InstrPos(g), why, "spawned goroutine takes no context and is not a bounded helper: "+why)
+				continue
+			}
 			// the context handed to the child is the one the deferred cancel() cancels
 			ctxOK := false
 			for _, a := range g.Common().Args {
